@@ -10,7 +10,7 @@ RULE = ('server login scripts over {encryption request?, set-compression(thresho
         'Gallina AES-CFB8 beforehand). The observed interleaving of reads and writes is replayed on the extracted model; compared: '
         'every client frame (decrypted with the model cipher, opened with the RSA private key) with its compression and cipher '
         'state, session joins (hash, position relative to the response), final reactor, error kind and message / version. '
-        'Non-trivial = at least two optional steps; distinct by (version, script, arrival).')
+        'Second logins on a used Connection object (after a refused login, a lost stream or disconnect(); retried from the handler or afterwards) are compared byte for byte with the same login on a fresh object. Non-trivial = at least two optional steps; distinct by (version, script, arrival).')
 
 _KEY = {}
 
@@ -339,8 +339,93 @@ def run(chk):
         got = ''.join(map(chr, r[0])) if r else None
         if got != (mt.group('ver') if mt else None):
             chk.broken('model-pattern', 'the model of the two outdated patterns disagrees with re.match on %r: %r vs %r' % (m, got, mt.group('ver') if mt else None))
+    relogin(chk)
     chk.assumptions += ['RSA and the session service are oracles: the harness opens the response with the private key; join() is a recording stub',
                         'json.loads is library code: the model starts from the extracted message', 'os.urandom is replaced by a recording fake so that the server side can be encrypted beforehand']
+
+
+def relogin(chk):
+    """A login on a Connection object that has been through an earlier session (ended by a login disconnect, by end of stream,
+    or by disconnect()) behaves exactly like the same login on a fresh object: nothing of the earlier session's compression,
+    cipher or reactor state survives.  (The fresh-object behaviour is what the main suite compares with the model.)"""
+    from minecraft.networking.connection import Connection
+    rng, th = chk.rng, chk.tier == 'thorough'
+    versions = [340, 384, 385, 390, 391, 404, 706, 707, 757]
+
+    def chunks_of(frames, arrival):
+        data = b''.join(frames)
+        if arrival == 'whole' or len(data) < 2:
+            return [data]
+        if arrival == 'frame':
+            return list(frames)
+        cuts = sorted(set(rng.randrange(1, len(data)) for _ in range(rng.randrange(1, 8))))
+        return [data[a:b] for a, b in zip([0] + cuts, cuts + [len(data)])]
+
+    def observe(net, conn, k):
+        srv = net.servers[k]
+        return {'client_bytes': b''.join(srv.sends).hex(), 'reactor': type(conn.reactor).__name__ if getattr(conn, 'reactor', None) else None,
+                'compression': [conn.options.compression_enabled, conn.options.compression_threshold]}
+    for n in range(250 if th else 50):
+        pv = rng.choice(versions)
+        ids = proto.Ids(pv)
+        s1 = [st for st in gen_script(rng, pv) if st[0] != 'enc']
+        if n % 2 == 0:          # the sharpest shape: compression announced, then the login is refused
+            s1 = [('comp', rng.choice([0, 1, 64, 256]))] + [st for st in s1 if st[0] == 'plugin'] + [('disc', json.dumps({'text': 'Server is restarting'}))]
+        s2 = [st for st in gen_script(rng, pv) if st[0] not in ('enc', 'disc')]
+        if not any(st[0] == 'success' for st in s2):
+            s2.append(('success',))
+        how = rng.choice(['handler', 'after-end', 'disconnect-first'])
+        arrival = rng.choice(['whole', 'frame', 'random'])
+        f1, _c = build_server(ids, s1)
+        f2, _c = build_server(ids, s2)
+        ch1, ch2 = chunks_of(f1, arrival), chunks_of(f2, arrival)
+        ends_in_play = any(st[0] == 'success' for st in s1)
+        case = {'proto': pv, 'first_session': [list(map(str, st)) for st in s1], 'second_session': [list(map(str, st)) for st in s2], 'second_connect': how, 'arrival': arrival}
+        chk.count('relogin', [pv, repr(s1), repr(s2), how, arrival], True)
+        chk.tally('relogin:%s' % how)
+        # -- the reused object
+        net = sim.Net([sim.Server(ch1, end='eof' if ends_in_play else 'idle'), sim.Server(ch2, end='idle'), sim.Server([], end='idle')]).install()
+        errs, state = [], {'retried': False}
+        try:
+            def on_exc(e, info):
+                errs.append(exn_name(e))
+                if how == 'handler' and not state['retried']:
+                    state['retried'] = True
+                    conn.connect()
+            conn = Connection('localhost', 25565, username='user', allowed_versions={pv}, handle_exception=on_exc)
+            conn.connect()
+            net.run_threads(conn)
+            if how != 'handler' or not state['retried']:
+                if how == 'disconnect-first':
+                    conn.disconnect()
+                try:
+                    conn.connect()
+                except Exception as e:
+                    errs.append('connect:' + exn_name(e))
+                net.run_threads(conn)
+            reused = observe(net, conn, 1)
+        except Exception as e:
+            reused = {'error': exn_name(e)}
+        finally:
+            net.uninstall()
+        # -- a fresh object, same second session
+        net = sim.Net([sim.Server(ch2, end='idle'), sim.Server([], end='idle')]).install()
+        try:
+            c2 = Connection('localhost', 25565, username='user', allowed_versions={pv}, handle_exception=lambda e, i: None)
+            c2.connect()
+            net.run_threads(c2)
+            fresh = observe(net, c2, 0)
+        except Exception as e:
+            fresh = {'error': exn_name(e)}
+        finally:
+            net.uninstall()
+        chk.tally('relogin:second-login-%s' % ('made' if fresh.get('client_bytes') and reused.get('reactor') == fresh.get('reactor') else 'differs-or-empty'))
+        if reused != fresh:
+            k = next((k for k in fresh if reused.get(k) != fresh[k]), 'error')
+            chk.violation('relogin', 'relogin:%d:%s:%s' % (pv, how, hash(repr(case)) % 10 ** 6), {'case': case, 'expected': fresh, 'observed': reused, 'errors_seen': errs},
+                          'protocol %d: second login on a Connection whose first session %s (second connect: %s): %s is %s; on a fresh object %s' % (
+                              pv, 'reached play and lost the stream' if ends_in_play else 'was refused by the server', how, k, str(reused.get(k))[:80], str(fresh.get(k))[:80]))
+    chk.sample('relogin', {'first': 'set compression, login disconnect', 'second_connect': 'handler', 'compared': 'client bytes, reactor, compression state'}, k=1)
 
 
 def replay(chk, rp):
